@@ -10,7 +10,7 @@ import vlib
 
 LEVEL = "proof"
 PROPS = "Contain/Props_C06.v"
-COQ_FILES = ["Contain/PathBytes.v", "Contain/PathBytesProofs.v", "Contain/Model.v", "Contain/Proofs.v",
+COQ_FILES = ["Contain/PathBytes.v", "Contain/PathBytesProofs.v", "Contain/Model.v", "Contain/Proofs.v", "Contain/FullProofs.v", "Contain/LexProofs.v",
              "Contain/Cases.v", "Contain/Props_C06.v"]
 KNOWN_FILE = os.path.join(vlib.VERIF, "KNOWN_FINDINGS.d", "C06.json")
 
@@ -19,15 +19,16 @@ META = {
                  "file system (Dir|File|Link, fuelled symlink walk) + vm_compute correspondence against the real "
                  "unpack.UnpackSquashed*/image.FromV1Image/FromTarball/CleanUp run in a sandbox with before/after snapshots",
     "level_text": "Theorems: layer_write_contained (for ALL entry names the layer-scanning writer's real path is the layer "
-                  "directory or below), layer_run_contained / cleanup_removes_all (file-system level), unpack_contained_on_D and "
-                  "unpack_links_inside_on_D (ANY entry names; link targets without a '..' component), unpack_contained_without_links "
-                  "(full strength for archives without link entries; the statement the fixed prefix-confusion / mkdir-before-check "
-                  "defects refuted, fix c7e8b5e1), target_outside_root_sound; what is still false is REFUTED with machine-checked "
-                  "witnesses (link escape 's -> .', 'a/t -> ../s/..'; directory creation through the escaped link). Oracles claimed on "
-                  "every unpack case, also outside D: no new file outside the target; no kept link whose stored target climbs "
-                  "lexically (except the write-through-link shape). Model = implementation is re-established on every run by vm_compute on the exact "
-                  "tar streams the real code was run on (final tree, error flag, link resolutions). PARTIAL: the scan half of the "
-                  "property (extractors never write into the scanned tree / leave temp files) is a snapshot oracle only.",
+                  "directory or below), layer_run_contained / cleanup_removes_all (file-system level), and for unpack.go at FULL "
+                  "STRENGTH (any names, link targets, types, orders, passes, requirers, limits, also failing runs; after fixes "
+                  "c7e8b5e1 + 05026580 + 7b96bcf8): unpack_contained (every changed path is the target or below it) and "
+                  "unpack_links_inside (no link left below the target resolves outside it); unpack_lexical_is_physical / "
+                  "unpack_links_inside_on_D2 (entry names that avoid link names: links sit at their lexical path and their stored targets stay "
+                  "inside lexically, link targets unrestricted); target_outside_root_sound. Model = "
+                  "implementation is re-established on every run by vm_compute on the exact tar streams the real code was run on "
+                  "(final tree, error flag, link resolutions); the former defect witnesses form a regression corpus held to the "
+                  "full property. PARTIAL: the scan half (extractors never write into the scanned tree / leave temp files) is a "
+                  "snapshot oracle only.",
     "level_note": "Trusted: Coq kernel + vm_compute; Go harness harness/cmd/contain (sandbox, snapshots, tar generation); the OS and "
                   "Go stdlib semantics of lstat/mkdir/symlink/open/MkdirAll/EvalSymlinks/WalkDir are MODELLED (Model.v walk, "
                   "mk_prefixes) and tied only by the correspondence; go-containerregistry mutate.Extract (squashing) is an oracle: "
@@ -36,9 +37,8 @@ META = {
     "design_ref": "DESIGN.md section 5 C06",
 }
 
-THEOREMS = ["layer_write_contained", "layer_run_contained", "cleanup_removes_all", "unpack_contained_on_D",
-            "unpack_contained_without_links", "unpack_links_inside_on_D", "target_outside_root_sound",
-            "unpack_link_escape_refuted", "unpack_link_mkdir_through_refuted"]
+THEOREMS = ["layer_write_contained", "layer_run_contained", "cleanup_removes_all", "unpack_contained",
+            "unpack_links_inside", "unpack_lexical_is_physical", "unpack_links_inside_on_D2", "unpack_contained_on_D", "unpack_links_inside_on_D", "target_outside_root_sound"]
 
 CORR_NAME = ("unpack.UnpackSquashed/UnpackSquashedFromTarball, image.FromV1Image/FromTarball/CleanUp, path.Clean/Join, "
              "filepath.Dir, path.Base, symlink.TargetOutsideRoot (Go) vs Contain.Model unpack_all / image_run / PathBytes (Coq, vm_compute)")
@@ -222,8 +222,9 @@ def run(ctx):
         if e.get("regression_oracle", "full") == "full" and hit[0] in spec_bad:
             new_spec_bad = sorted(set(new_spec_bad + [hit[0]]))
     outside_fail = [i for i in spec_bad if i in out_d]
-    if outside_fail and not known_entries:
-        # a failure outside D without any finding on file is a new violation
+    if not [e for e in known_entries if e["witness"].get("half") != "scan"]:
+        # no unpack finding is on file any more: the oracle is claimed at full strength (theorems
+        # unpack_contained / unpack_links_inside), inside and outside the old domain D
         new_spec_bad = sorted(set(spec_bad + spec2_bad + spec3_bad))
     scan_bad = scan.get("bad", []) + scan_regress_bad
     for b in scan_bad[:3]:
@@ -273,8 +274,8 @@ def run(ctx):
         "regression_corpus": [{"id": e["id"], "fix_commit": e.get("fix_commit"), "oracle": e.get("regression_oracle", "full")} for e in fixed_entries],
         "kept_link_oracle": "on every unpack case whose entry names do not pass through the name of a link entry (inside AND outside D): "
                             "no link left below the target may have a stored target that, read lexically from the link's own directory, "
-                            "climbs above the target (relative) or is not below the target (absolute); backed by theorem "
-                            "target_outside_root_sound; unclaimed region = exactly the write-through / 's -> .' link-chain shape",
+                            "climbs above the target (relative) or is not below the target (absolute); this is theorem unpack_links_inside_on_D2 "
+                            "(via unpack_lexical_is_physical + target_outside_root_sound); unclaimed region = entry names passing through a link entry's name",
         "explanation": "correspondence (model = implementation) is checked on every case incl. outside D; the containment oracle is "
                        "claimed on every image/layer case, every path case and on unpack cases inside D; outside D the recorded "
                        "defects apply (KNOWN_FINDINGS.d/C06.json, replayed every run). Scan half: oracle only (partial).",
